@@ -244,6 +244,53 @@ func streamSig(c *ctx) {
 					}
 				}
 			}
+			// the same private key with d written one octet longer (a leading 0x00, as signed-integer serialisers do) and,
+			// when it has one, without its leading zero octets: the same key
+			if dBytes, err := k.GetBytes(iana.EC2KeyParameterD); err == nil {
+				for vn, dv := range map[string][]byte{"d with a leading zero octet": append([]byte{0}, dBytes...), "d without its leading zero octets": stripZeros(dBytes)} {
+					if len(dv) > 66 || len(dv) == 0 || bytes.Equal(dv, dBytes) {
+						continue
+					}
+					kz := cloneKey(k)
+					kz[iana.EC2KeyParameterD] = dv
+					if ecdsa.CheckKey(kz) != nil {
+						continue
+					}
+					c.eval()
+					c.nontriv(fmt.Sprintf("d-form|%d|%s", a.alg, vn))
+					pz, perr := ecdsa.ToPublicKey(kz)
+					sz, serr := ecdsa.NewSigner(kz)
+					if perr != nil || serr != nil {
+						fail("sig-key", "a private key with "+vn+" passes CheckKey but yields no public key or signer", line+"|"+describe(kz), fmt.Sprint(perr, serr), "the same key")
+						continue
+					}
+					xz, _ := pz.GetBytes(iana.EC2KeyParameterX)
+					xo, _ := pubs["derived"].GetBytes(iana.EC2KeyParameterX)
+					if !bytes.Equal(xz, xo) {
+						fail("sig-key", "the public key derived from a private key with "+vn+" is not d*G", line+"|"+describe(kz), fmt.Sprintf("%x", xz), fmt.Sprintf("%x", xo))
+					}
+					if sig, err := sz.Sign([]byte("m")); err == nil {
+						if vz, err := ecdsa.NewVerifier(pubs["derived"]); err == nil && vz.Verify([]byte("m"), sig) != nil {
+							fail("sig-verify", "a signature made with a private key with "+vn+" does not verify under the public key of d", line+"|"+describe(kz), "rejected", "nil")
+						}
+						if vz, err := ecdsa.NewVerifier(kz); err == nil && vz.Verify([]byte("m"), sig) != nil {
+							fail("sig-verify", "a signature made with a private key with "+vn+" does not verify under the verifier of that very key", line+"|"+describe(kz), "rejected", "nil")
+						}
+					}
+				}
+			}
+			// a key converted from a Go key is a value of its own: the Go key changed afterwards does not change it
+			{
+				p2 := &goecdsa.PrivateKey{PublicKey: goecdsa.PublicKey{Curve: a.curve, X: new(big.Int).Set(priv.X), Y: new(big.Int).Set(priv.Y)}, D: new(big.Int).Set(priv.D)}
+				if kc, err := ecdsa.KeyFromPrivate(p2); err == nil {
+					before := qMap(kc)
+					p2.D.SetInt64(7)
+					p2.X.SetInt64(1)
+					if qMap(kc) != before {
+						fail("sig-key", "a key made by KeyFromPrivate changes when the Go key it was made from is changed afterwards", line, "changed", "a value of its own")
+					}
+				}
+			}
 			// a signer of another key
 			k2, _ := ecKeyFromScalar(a, new(big.Int).Add(d, big.NewInt(1)))
 			if k2 != nil {
@@ -364,6 +411,33 @@ func streamSig(c *ctx) {
 		epk, _ := ed25519.ToPublicKey(ek)
 		ev, _ := ed25519.NewVerifier(epk)
 		gopriv := goed.NewKeyFromSeed(seed)
+		// keys converted from Go keys through a buffer the caller goes on to reuse (zeroise, load the next key)
+		{
+			buf := append(goed.PrivateKey{}, gopriv...)
+			kc, err := ed25519.KeyFromPrivate(buf)
+			if err == nil {
+				before := qMap(kc)
+				for i := range buf {
+					buf[i] = 0
+				}
+				c.eval()
+				if qMap(kc) != before {
+					fail("sig-key", "an Ed25519 key made by KeyFromPrivate changes when the caller's buffer is overwritten afterwards", fmt.Sprintf("seed %x", seed), "changed", "a value of its own")
+				} else if sc, err := ed25519.NewSigner(kc); err != nil {
+					fail("sig-key", "an Ed25519 key made by KeyFromPrivate yields no signer", fmt.Sprintf("seed %x", seed), err, "a signer")
+				} else if sig, err := sc.Sign([]byte("m")); err != nil || !goed.Verify(gopriv.Public().(goed.PublicKey), []byte("m"), sig) {
+					fail("sig-sign", "a signature of a key made by KeyFromPrivate does not verify under the public key of the Go key it was made from", fmt.Sprintf("seed %x", seed), err, "valid")
+				}
+			}
+			sbuf := append([]byte{}, seed...)
+			if ks, err := ed25519.KeyFromSeed(sbuf); err == nil {
+				before := qMap(ks)
+				sbuf[0] ^= 0xff
+				if qMap(ks) != before {
+					fail("sig-key", "an Ed25519 key made by KeyFromSeed changes when the caller's seed buffer is overwritten afterwards", fmt.Sprintf("seed %x", seed), "changed", "a value of its own")
+				}
+			}
+		}
 		for _, ml := range msgLens {
 			msg := c.r.bytes(ml)
 			sig, err := es.Sign(msg)
